@@ -183,6 +183,11 @@ def window_events(mode):
         ev.append(["count_star", ck(part)])
         ev.append(["any", b, ck(part)])
         ev.append(["all", b, ck(part)])
+        # window / aggregate functions nested inside an element-wise expression
+        k_ = c("k", mode)
+        ev.append(["sub", x, ["mean", x, ck(part)]])
+        ev.append(["add", ["row_number", ck(part, [["desc", k_]])], lit(0)])
+        ev.append(["fill_null", ["shift", x, -1, None, ck(part, [k_])], lit(-1)])
     return [["mutate", [["w", e]]] for e in ev]
 
 
